@@ -98,14 +98,18 @@ def run(db, cx):
 
     # ---------------------------------------------------- 3. volume flag = AND over faces
     for f in db.get(D + "UnitInserter::insert_volume"):
-        folds = [(b, i, ev) for (b, i, ev) in f.events("def") if ev.get("var") == "simple_safety"]
-        cx.require(folds, "UnitInserter::insert_volume: simple_safety accumulator not found")
+        accs = set(ev.get("var") for (_b, _i, ev) in f.events("def")
+                   if "SimpleSafetyGetter" in ev.get("rhs", "") or any("SimpleSafetyGetter" in c_
+                                                                       for c_ in ev.get("calls", [])))
+        cx.require(len(accs) == 1, "UnitInserter::insert_volume: simple-safety accumulator not found")
+        accv = next(iter(accs))
+        folds = [(b, i, ev) for (b, i, ev) in f.events("def") if ev.get("var") == accv]
         init = [ev for (_b, _i, ev) in folds if ev.get("kind") == "decl"]
         upd = [(b, i, ev) for (b, i, ev) in folds if ev.get("kind") != "decl"]
         ok_init = len(init) == 1 and (init[0].get("rhs") in ("true",) or
                                       "supports_simple_safety" in init[0].get("rhs", ""))
         ok_upd = len(upd) >= 1 and all(
-            "simple_safety" in ev.get("refs", []) and "&&" in ev.get("rhs", "")
+            accv in ev.get("refs", []) and "&&" in ev.get("rhs", "")
             and any("SimpleSafetyGetter" in c for c in ev.get("calls", []) + [ev.get("rhs", "")])
             for (_b, _i, ev) in upd)
         in_loop = all(b in f.reach(f.succ(b)) for (b, _i, _e) in upd)
@@ -122,7 +126,7 @@ def run(db, cx):
         ok = bool(sets)
         for (b, i, ev) in sets:
             g = False
-            for br in f.branch_blocks(lambda c, _b: local_refs(c.get("refs", [])) == {"simple_safety"}):
+            for br in f.branch_blocks(lambda c, _b: local_refs(c.get("refs", [])) == {accv}):
                 if f.guarded_by_edge((b, i), br, f.cond_polarity_edge(br, True)):
                     g = True
             ok = ok and g
@@ -241,11 +245,13 @@ def run(db, cx):
         if not sc:
             continue
         found = True
-        sdefs = [ev for (_b, _i, ev) in g.events("def") if ev.get("var") == "safety"]
+        svars = set(ev.get("var") for (_b, _i, ev) in g.events("def")
+                    if C + "OrangeTrackView::find_safety" in ev.get("calls", []))
+        sdefs = [ev for (_b, _i, ev) in g.events("def") if ev.get("var") in svars]
         ok = bool(sdefs) and all(
             (ev.get("kind") == "decl" and ev.get("lit") in ("0", "0.0")) or
             C + "OrangeTrackView::find_safety" in ev.get("calls", []) for ev in sdefs)
-        uses = any("safety" in a.get("refs", []) for ev in sc for a in ev.get("args", []))
+        uses = any(svars & set(a.get("refs", [])) for ev in sc for a in ev.get("args", []))
         cx.ob("C11.6-displacement", "the safety handed to UrbanMscScatter is geo.find_safety() or 0",
               ok and uses, str([ev.get("rhs") for ev in sdefs]), short(g.loc),
               why="any other bound lets the lateral displacement leave the volume")
